@@ -655,6 +655,80 @@ def recovery(run, rng, thorough, seed):
     run.add("recovery_not_judged_refused_or_no_section", rec.not_judged)
 
 
+def history(run, rec, alpha_s, t_plot, da_plot, dr_plot, DA, DR):
+    """Call histories on the entry points that read adsorbate properties at the isotherm temperature: the same
+    backend adsorbate at two temperatures alternately, two adsorbates at one temperature.  Every call is judged
+    like a first call: area and volumes are normalised by M / rho(T) taken from CoolProp directly (an input), so
+    the specification's expectation is the generating slope / intercept / capacity itself.
+    Also: alpha_s with the desorption branch of a reversible reference must equal the adsorption-branch result."""
+    import numpy
+    import pygaps
+    from ..units_common import coolprop_direct
+    n2, ar = pygaps.Adsorbate.find("N2"), pygaps.Adsorbate.find("Ar")
+    seq = [("N2", n2, 77.355), ("N2", n2, 95.0), ("N2", n2, 77.355), ("Ar", ar, 95.0), ("N2", n2, 95.0), ("Ar", ar, 87.3), ("Ar", ar, 95.0)]
+    kinds = ["first call", "same adsorbate, other temperature", "same adsorbate, other temperature", "other adsorbate, same temperature",
+             "other adsorbate, same temperature", "same adsorbate, other temperature", "same adsorbate, other temperature"]
+    p = numpy.array([k / 20 for k in range(1, 17)])
+    s, ic = Fraction(7, 3), Fraction(5, 4)
+    refs = [Fraction(k * k + 3 * k, 7) for k in range(1, 17)]
+    apt = refs[7]                                   # reference loading at p = 0.4
+    rl = numpy.array([float(x) for x in refs])
+    thick = ExactModel((Fraction(k, 20), Fraction(k, 4) + Fraction(1, 10)) for k in range(1, 17))
+    tvals = thick(p)
+    nt = Fraction(1, 100)                           # DA capacity mol/g; volume = nt M / rho
+    for step, (name, ads, T) in enumerate(seq):
+        cp = coolprop_direct(ads, T)
+        if cp is None:
+            run.note(f"history: CoolProp state for {name} at {T} K not available; step skipped")
+            continue
+        vm = cp["M"] / cp["rhoLmass"]              # cm3/mol
+        cfg = "call history: " + kinds[step]
+        det = f"step {step + 1} of {[(a, t) for a, _, t in seq]}"
+        # t-plot: n = s t + i
+        n = float(s) * tvals + float(ic)
+        iso = point_isotherm(p, n, adsorbate=name, temperature=T, loading_unit="mmol")
+        q0 = {"m": "tp", "s": renc(s), "i": renc(ic), "mm": [1, 1], "rho": [1, 1]}
+        try:
+            for d in t_plot(iso, thickness_model=thick, t_limits=(0.0, 1e9))["results"]:
+                rec.add("t_plot", cfg, q0, dict(slope=d["slope"], intercept=d["intercept"], area=d["area"] / vm, adsorbed_volume=d["adsorbed_volume"] / vm))
+        except Exception as e:  # noqa: BLE001
+            run.violation({"site": "t_plot", "part": "recovery", "config": cfg, "wrong": "exception:" + exc_class(e)}, {"history": det, "message": str(e)[:200]})
+        # alpha-s with a numeric reference area: n = s ref / ref(0.4) + i
+        ref = point_isotherm(p, rl, adsorbate=name, temperature=T, loading_unit="mmol")
+        smp = point_isotherm(p, float(s) * rl / float(apt) + float(ic), adsorbate=name, temperature=T, loading_unit="mmol")
+        q1 = {"m": "as", "s": renc(s), "i": renc(ic), "aref": [2469, 10], "apt": renc(apt), "mm": [1, 1], "rho": [1, 1]}
+        try:
+            for d in alpha_s(smp, ref, reference_area=246.9, reducing_pressure=0.4, t_limits=(0.0, 1e9))["results"]:
+                rec.add("alpha_s", cfg, q1, dict(slope=d["slope"], intercept=d["intercept"], area=d["area"], adsorbed_volume=d["adsorbed_volume"] / vm))
+        except Exception as e:  # noqa: BLE001
+            run.violation({"site": "alpha_s", "part": "recovery", "config": cfg, "wrong": "exception:" + exc_class(e)}, {"history": det, "message": str(e)[:200]})
+        # DR / DA: capacity nt, energy 8000 J/mol
+        for ex, fn, site in ((Fraction(2), lambda i_: dr_plot(i_), "dr_plot"), (Fraction(5, 2), lambda i_: da_plot(i_, exp=2.5), "da_plot")):
+            model = DR(parameters={"n_m": float(nt), "e": 8000.0}) if ex == 2 else DA(parameters={"n_m": float(nt), "e": 8000.0, "m": float(ex)})
+            model.__init_parameters__({"temperature": T})
+            iso = point_isotherm(p, model.loading(p), adsorbate=name, temperature=T)
+            q2 = {"m": "da", "vt": renc(nt), "eps": [8000, 1], "ex": renc(ex), "mm": [1, 1], "rho": [1, 1]}
+            try:
+                d = fn(iso)
+                rec.add(site, cfg, q2, dict(pore_volume=d["pore_volume"] / vm, adsorption_potential=d["adsorption_potential"]))
+            except Exception as e:  # noqa: BLE001
+                run.violation({"site": site, "part": "recovery", "config": cfg, "wrong": "exception:" + exc_class(e)}, {"history": det, "message": str(e)[:200]})
+    # desorption branch of a reversible reference (its desorption branch retraces the adsorption branch)
+    pp = numpy.concatenate([p, p[::-1][1:]])
+    ref2 = point_isotherm(pp, numpy.concatenate([rl, rl[::-1][1:]]), adsorbate="N2", temperature=77.355, loading_unit="mmol")
+    smp2 = point_isotherm(p[:-1], float(s) * rl[:-1] / float(apt) + float(ic), adsorbate="N2", temperature=77.355, loading_unit="mmol")
+    cp = coolprop_direct(n2, 77.355)
+    vm = cp["M"] / cp["rhoLmass"]
+    for br in ("ads", "des"):
+        cfg = "reference branch '%s' of a reversible reference" % br
+        q1 = {"m": "as", "s": renc(s), "i": renc(ic), "aref": [2469, 10], "apt": renc(apt), "mm": [1, 1], "rho": [1, 1]}
+        try:
+            for d in alpha_s(smp2, ref2, reference_area=246.9, reducing_pressure=0.4, branch_ref=br, t_limits=(0.0, 1e9))["results"]:
+                rec.add("alpha_s", cfg, q1, dict(slope=d["slope"], intercept=d["intercept"], area=d["area"], adsorbed_volume=d["adsorbed_volume"] / vm))
+        except Exception as e:  # noqa: BLE001
+            run.violation({"site": "alpha_s", "part": "recovery", "config": cfg, "wrong": "exception:" + exc_class(e)}, {"message": str(e)[:200]})
+
+
 def replay(path):
     """./check C14 --replay replays/C14-....json : re-execute a recorded window/section case on the current
     tree and let the specification judge it again (other records are printed)."""
